@@ -101,6 +101,9 @@ def random_action(cl, rng, w, state):
     if k == 'Connect':
         return ('Connect',) + rng.choice(sorted(connectable))
     if k == 'Compact':
+        iso = getattr(cl, 'script_isolated', None)
+        if iso in ids and rng.random() < state.get('compact_at_isolated', 0.0):
+            return ('Compact', iso)
         return ('Compact', rng.choice(ids))
     if k == 'ChildDone':
         return ('ChildDone', rng.choice(sorted(running_children)))
